@@ -783,6 +783,25 @@ class C10(Prop):
             return rng.choice([Packed(("1", 5000)), Packed("[", ("9", 4400), "]"), Packed('{"n": -', ("1", 4301), "}")])
         return rng.choice(BENIGN)
 
+    def _gen_acute(self, rng):
+        """many weak patterns: each hit is below the severity threshold, together they reach inflammation ACUTE; then
+        case variants / embeddings of the input that was blocked that way"""
+        words = rng.sample(["omega", "zebra", "tango", "Quark", "ab", "öl", "HACK\u03a3", "stra\u00dfe"], rng.choice([3, 4, 5, 6]))
+        sev = rng.choice([1, 2, 2, 3])
+        pats = [self._sigtok(w, sev, False) for w in words] + ([self._sigtok(r"evil\d+", sev, True)] if rng.random() < 0.4 else [])
+        vals = rng.choice(["empty", "none", "L:0:200", "J:3:1000"])
+        lines = [" ".join(["inn", str(rng.choice([sev + 1, sev + 2, 6])), str(rng.choice([0, 15])), vals] + pats)]
+        base = " ".join(self._instance(rng, p_) for p_ in rng.sample(pats, rng.randint(2, len(pats))))
+        lines.append("check " + hexs(base))
+        for _ in range(rng.choice([2, 3, 4])):
+            j = rng.random()
+            v = self._flip(rng, base) if j < 0.4 else self._embed(rng, base, True) if j < 0.8 else self._flip(rng, self._embed(rng, base, True))
+            lines.append("check " + hexs(v))
+            if rng.random() < 0.25:
+                lines.append(rng.choice(["resetinfl", "adv 60000000", "sevthr 6", "istats"]))
+        lines.append("istats")
+        return {"lines": lines, "note": "innate: block by accumulated inflammation, then variants"}
+
     def _gen_innate(self, rng, tier, huge_ok):
         thr = rng.choice([0, 1, 2, 3, 3, 3, 4, 5, 6])
         decay = rng.choice([0, 1, 15])
@@ -859,7 +878,7 @@ class C10(Prop):
             huge_ok = huge_budget > 0 and rng.random() < (0.02 if tier == "quick" else 0.01)
             k = rng.random()
             c = self._gen_retune(rng) if k < 0.08 else self._gen_flood(rng) if k < 0.15 else self._gen_colony(rng) \
-                if k < 0.21 else self._gen_swap(rng) if k < 0.27 else self._gen_membrane(rng, tier, huge_ok) if k < 0.62 else self._gen_innate(rng, tier, huge_ok)
+                if k < 0.21 else self._gen_swap(rng) if k < 0.27 else self._gen_acute(rng) if k < 0.31 else self._gen_membrane(rng, tier, huge_ok) if k < 0.62 else self._gen_innate(rng, tier, huge_ok)
             if huge_ok and any(len(l) > 100_000 for l in c["lines"]):
                 huge_budget -= 1
             yield c
@@ -1602,11 +1621,13 @@ class C10(Prop):
         pats, vals = [], []
         dvals = ["L:0:100000", "C:0:0"]
         recent = []
+        acute = []
         checks = 0
         for idx, (line, o) in enumerate(zip(lines, obs)):
             t = line.split(" ")
             op = t[0]
             if op == "inn":
+                acute = []
                 thr = int(t[1])
                 vals = list(dvals) if t[3] in ("none", "empty") else t[3].split(",")
                 pats = [self._parse_sig(x) for x in t[4:]]
@@ -1614,6 +1635,7 @@ class C10(Prop):
                 checks = 0
             elif op == "addpat":
                 pats.append(self._parse_sig(t[1]))
+                acute = []
             elif op == "addval":
                 vals.append(t[1])
             elif op == "setvals":
@@ -1652,9 +1674,24 @@ class C10(Prop):
                         out.append(Violation("blocked_stays_blocked_under_case_and_embedding",
                                              f"blocked like {prev[0][:40]!r}", o[:80], idx))
                         break
+                # ... also when the block came from accumulated inflammation (level ACUTE, no single pattern at the
+                # threshold): a variant that sets off everything the blocked input set off, and is rejected by no fewer
+                # validators, is blocked as well
+                for (base, bhits, nrej) in acute:
+                    if base == content or not allowed or len(rej) < nrej:
+                        continue
+                    casev = base.casefold() == content.casefold()
+                    emb = base != "" and base in content and self._separated(base, content)
+                    if (casev or emb) and all(self._sig_hits(s_, content) for s_ in bhits):
+                        out.append(Violation("blocked_stays_blocked_under_case_and_embedding",
+                                             f"ACUTE-blocked like {base[:40]!r}", o[:80], idx))
+                        break
                 if not allowed and blockers and len(content) < 5000:
                     recent.append((content, blockers))
                     del recent[:-6]
+                if not allowed and not blockers and "lvl=4" in f and len(content) < 5000:
+                    acute.append((content, hits, len(rej)))
+                    del acute[:-4]
 
     def nontrivial(self, case, obs):
         return any(o.startswith("0 ") for o in obs)
